@@ -234,7 +234,7 @@ func runExhaustive(c *vp.Child) {
 // taken (rotating with the pattern, the subject and the seed).
 //
 //	quick:    patterns <= 4 tokens x subjects <= 3: all; length 4: all for <= 3 tokens, 1/3 for 4 tokens
-//	thorough: patterns <= 5 tokens x subjects <= 3: all; length 4: all for <= 4 tokens, 1/3 for 5 tokens;
+//	thorough: patterns <= 5 tokens x subjects <= 4: all;
 //	          length 5: all for <= 3 tokens, 1/3 for 4 tokens, none for 5 tokens
 func subjectSelected(c *vp.Child, nt, sl, rot int) bool {
 	third := (rot+int(c.Seed))%3 == 0
@@ -244,12 +244,10 @@ func subjectSelected(c *vp.Child, nt, sl, rot int) bool {
 	if c.Tier != vp.Thorough {
 		return nt <= 3 || third
 	}
-	switch sl {
-	case 4:
-		return nt <= 4 || third
-	default:
-		return nt <= 3 || (nt == 4 && third)
+	if sl == 4 {
+		return true
 	}
+	return nt <= 3 || (nt == 4 && third)
 }
 
 func malformedClass(msg string) string {
